@@ -5,6 +5,7 @@ ZSTD_c_validateSequences = 1.  The position at which offsets are validated is RE
 -/
 import ZstdVerif.Gen.SeqVal
 import ZstdVerif.Gen.Consts
+import ZstdVerif.Model.Rep
 namespace ZstdVerif.SeqApi
 open ZstdVerif.Gen
 
@@ -48,5 +49,82 @@ def acceptExplicit (c : Cfg) : (fuel : Nat) → List Seq → (pos remaining : Na
       | some (bs, rest, pos') =>
         if bs > c.blockLimit ∨ bs > remaining then false      -- (an empty block, i.e. a bare delimiter, is accepted)
         else acceptExplicit c fuel rest pos' (remaining - bs)
+
+/-! ### repeat-offset history across explicit-delimiter blocks, and the block-level sequence producer
+
+`ZSTD_copySequencesToSeqStoreExplicitBlockDelim` is also the transcriber of what a registered sequence producer returns
+(ZSTD_buildSeqStore).  Besides the seqStore entries it leaves `nextCBlock->rep`, the history the NEXT block starts from - read by the
+transcriber of the next block when repcode search is on, and by the internal parser when the producer fails on a later block and
+ZSTD_c_enableSeqProducerFallback hands that block over. -/
+
+/-- ZSTD_resolveExternalRepcodeSearch: ZSTD_c_searchForExternalRepcodes (0 auto, 1 enable, 2 disable) and the compression level -/
+def repSearchOn (value : Nat) (level : Int) : Bool :=
+  if value = 1 then true else if value = 2 then false else decide (10 ≤ level)
+
+/-- the tail of the transcriber when repcode search is OFF (every offset was stored raw): the history after the block, by the three cases
+of the code - three or more sequences, exactly two, exactly one (`seqs` = the block's sequences without the delimiter) -/
+def endRepOff (rep : Rep.R) (seqs : List Seq) : Rep.R :=
+  match seqs.reverse with
+  | [] => rep
+  | [a] => ⟨a.offset, rep.r0, rep.r1⟩
+  | [b, a] => ⟨b.offset, a.offset, rep.r0⟩
+  | c :: b :: a :: _ => ⟨c.offset, b.offset, a.offset⟩
+
+/-- repcode search ON: ZSTD_finalizeOffBase / ZSTD_updateRep along the block; returns the offBases stored and the history after -/
+def storeOn (rep : Rep.R) : List Seq → List Nat × Rep.R
+  | [] => ([], rep)
+  | s :: rest =>
+    let ob := Rep.finalizeOffBase s.offset rep (s.ll == 0)
+    let r := storeOn (Rep.updateRep rep ob (s.ll == 0)) rest
+    (ob :: r.1, r.2)
+
+/-- the transcriber on one block: offBases stored (OFFSET_TO_OFFBASE = offset + 3 when search is off) and `nextCBlock->rep` -/
+def storeExplicit (search : Bool) (rep : Rep.R) (seqs : List Seq) : List Nat × Rep.R :=
+  if search then storeOn rep seqs else (seqs.map (fun s => s.offset + 3), endRepOff rep seqs)
+
+/-- the sequences of the first block of an array: everything before the first delimiter (offset = 0 and matchLength = 0, the loop
+condition of the transcriber), and the delimiter itself if there is one -/
+def splitAtDelim : List Seq → List Seq × Option Seq
+  | [] => ([], none)
+  | s :: rest => if s.offset = 0 ∧ s.ml = 0 then ([], some s) else let r := splitAtDelim rest; (s :: r.1, r.2)
+
+/-- what ZSTD_buildSeqStore does with one answer of a registered producer -/
+inductive ProducerOutcome where
+  | stored (offBases : List Nat) (lastLits : Nat) (rep : Rep.R)   -- block transcribed: seqStore offBases, last literals, nextCBlock->rep
+  | fallback                                                     -- internal parser takes the block
+  | failed                                                       -- sequenceProducer_failed
+  | invalid                                                      -- externalSequences_invalid
+deriving DecidableEq, Repr
+
+/-- ZSTD_c_validateSequences on a producer's block: every sequence before the delimiter passes ZSTD_validateSequence at its match start;
+positions restart at 0 in every block (a fresh ZSTD_sequencePosition), `dictSize` = content size of the dictionary / prefix the context
+holds, match-length floor 3 (useSequenceProducer) -/
+def validBody (windowSize dictSize : Nat) : List Seq → Nat → Bool
+  | [], _ => true
+  | s :: rest, pos =>
+    validSeq s.offset s.ml 3 (SeqVal.posAtValidationExplicit pos s.ll s.ml) windowSize dictSize && validBody windowSize dictSize rest (pos + s.ll + s.ml)
+
+/-- ZSTD_postProcessSequenceProducerResult + the fallback switch + ZSTD_fastSequenceLengthSum check + transcription.
+`ret` = the producer's return value, `buf` = the first `min ret cap` entries it wrote, `cap` = outSeqsCapacity, `srcSize` > 0. -/
+def producerBlock (search fallbackOn validate : Bool) (windowSize dictSize : Nat) (rep : Rep.R) (srcSize cap ret : Nat) (buf : List Seq) : ProducerOutcome :=
+  let err := if fallbackOn then ProducerOutcome.fallback else ProducerOutcome.failed
+  if ret > cap then err
+  else if ret = 0 then err
+  else
+    let last := buf.getLast?.getD ⟨0, 0, 0⟩
+    if ¬(last.offset = 0 ∧ last.ml = 0) ∧ ret = cap then err
+    else
+      -- a delimiter is appended when the last entry is not one; the length sum runs over ALL entries
+      let sum := buf.foldl (fun n s => n + s.ll + s.ml) 0
+      if sum > srcSize then .invalid
+      else
+        let (body, delim) := splitAtDelim buf
+        let lastLits := (delim.map (·.ll)).getD 0
+        let used := body.foldl (fun n s => n + s.ll + s.ml) 0 + lastLits
+        if validate && !validBody windowSize dictSize body 0 then .invalid
+        else if used ≠ srcSize then .invalid       -- "Blocksize doesn't agree with block delimiter!"
+        else
+          let st := storeExplicit search rep body
+          .stored st.1 lastLits st.2
 
 end ZstdVerif.SeqApi
